@@ -163,7 +163,7 @@ def build() -> Check:
             "streams: the C01 stream generator (good/defective/noise tokens) and flag/escape-dense noise, each compared single-call vs "
             "bytewise vs a drawn splitting, per configuration; non-trivial = the stream yields >=1 frame or leaves the reader mid-frame "
             "AND the compared splitting has a cut adjacent to a 7E/7D. overlong: flag + 2030..4200 flag-free octets (random, 7D-dense, a header announcing "
-            "2047 octets, 01 filler) + 1..3 good frames, with chunk sizes around 2047/2048 and cuts near the limit. tokens: ALL sequences of <=5 (quick) / <=6 (thorough) tokens over "
+            "2047 octets, 01 filler) + 1..3 good frames, with chunk sizes around 2047/2048 and cuts near the limit. tokens: ALL sequences of <=4 (quick) / <=6 (thorough) tokens over "
             "{flag, escape, valid frame with 7D/5E/7E in its information field, header-only frame, frame truncated after the HCS, frame "
             "cut mid-header, odd octet, even octet, 5E, stuffed valid frame} x 4 configurations x {bytewise, every single cut, token "
             "boundaries, empty chunks}; non-trivial = some configuration yields a frame or ends mid-frame. Distinct = case hash."
@@ -174,6 +174,6 @@ def build() -> Check:
             HypClause("streams", c01.case_st, oracle_stream, quick=12000, thorough=250000),
             HypClause("dense", dense_case_st, oracle_stream, quick=12000, thorough=250000),
             HypClause("overlong", overlong_case_st, oracle_stream, quick=1500, thorough=30000, doc="frames around / beyond the 2047-octet maximum followed by good frames"),
-            EnumClause("tokens", size=lambda tier: _seq_count(5 if tier == "quick" else 6), case_at=seq_at, oracle=oracle_tokens, doc="exhaustive token sequences x all single cuts"),
+            EnumClause("tokens", size=lambda tier: _seq_count(4 if tier == "quick" else 6), case_at=seq_at, oracle=oracle_tokens, doc="exhaustive token sequences x all single cuts"),
         ],
     )
